@@ -486,6 +486,45 @@ Proof.
   f_equal. apply ntt_intt_pure; exact Ha.
 Qed.
 
+(* coset_ntt_linear / coset_intt_linear, stated on the model functions *)
+Theorem coset_ntt_linear a b c :
+  length a = 64%nat -> length b = 64%nat ->
+  exists fa fb, coset_ntt_noswap_64 a = Some fa /\ coset_ntt_noswap_64 b = Some fb /\
+    coset_ntt_noswap_64 (map2 fp_add a b) = Some (map2 fp_add fa fb) /\
+    coset_ntt_noswap_64 (map (fp_mul c) a) = Some (map (fp_mul c) fa).
+Proof.
+  intros Ha Hb. exists (ntt_pure a), (ntt_pure b).
+  split; [apply coset_ntt_total; exact Ha|]. split; [apply coset_ntt_total; exact Hb|]. split.
+  - rewrite coset_ntt_total by (rewrite length_map2; congruence). f_equal.
+    apply (ntt_pure_add a b). congruence.
+  - rewrite coset_ntt_total by (rewrite map_length; exact Ha). f_equal. apply (ntt_pure_scale c a).
+Qed.
+Theorem coset_intt_linear a b c :
+  length a = 64%nat -> length b = 64%nat ->
+  exists fa fb, coset_intt_noswap_64 a = Some fa /\ coset_intt_noswap_64 b = Some fb /\
+    coset_intt_noswap_64 (map2 fp_add a b) = Some (map2 fp_add fa fb) /\
+    coset_intt_noswap_64 (map (fp_mul c) a) = Some (map (fp_mul c) fa).
+Proof.
+  intros Ha Hb. exists (intt_pure a), (intt_pure b).
+  split; [apply coset_intt_total; exact Ha|]. split; [apply coset_intt_total; exact Hb|]. split.
+  - rewrite coset_intt_total by (rewrite length_map2; congruence). f_equal.
+    apply (intt_pure_add a b). congruence.
+  - rewrite coset_intt_total by (rewrite map_length; exact Ha). f_equal. apply (intt_pure_scale c a).
+Qed.
+
+Lemma psi_tables_ok_stated :
+  length PSI_BITREV = 64%nat /\ length PSI_INV_BITREV = 64%nat /\
+  Forall canonical PSI_BITREV /\ Forall canonical PSI_INV_BITREV /\ canonical N_INV /\
+  (forall i, (i < 64)%nat -> nth i PSI_BITREV 0 = pow_mod (nth 32 PSI_BITREV 0) (bitrev 6 i)) /\
+  (forall i, (i < 64)%nat -> (nth i PSI_BITREV 0 * nth i PSI_INV_BITREV 0) mod P = 1) /\
+  (N_INV * 64) mod P = 1 /\
+  (forall k, (k < 64)%nat -> pow_mod (ntt_root (nth 32 PSI_BITREV 0) k) 64 = P - 1).
+Proof. rewrite <- psi_def. exact psi_tables_ok. Qed.
+Lemma ring_elem_example : ring_elem (unit_vec 64 3) /\ ring_elem (negacyclic (unit_vec 64 3) (unit_vec 64 63)).
+Proof.
+  split; [apply ring_elem_unit; lia | apply ring_elem_negacyclic; apply length_unit_vec; lia].
+Qed.
+
 (* from here on the transforms are used through the lemmas above only; keeping them opaque makes the
    kernel unfold the small side of a conversion problem first *)
 Global Opaque ntt_pure intt_pure eval_at_roots.
